@@ -77,6 +77,10 @@ def extract(features="", repo=None, target_dir=None, verbose=False):
             try:
                 m = json.load(open(meta))
                 if m.get("tree_hash") == th:
+                    try:
+                        os.utime(out, None)      # mark as in use: concurrent checks must not have it pruned under them
+                    except OSError:
+                        pass
                     return out
             except Exception:
                 pass
@@ -169,12 +173,23 @@ def _derive(d):
         json.dump(out, fh)
 
 
-def _prune(keep=12):
+def _prune(keep=12, min_age=3600):
+    """Bound the cache: beyond the `keep` most recently used fact directories, remove those not used for an hour (never one
+    that a concurrently running check may still be reading)."""
     d = os.path.join(CACHE, "facts")
-    ents = [os.path.join(d, e) for e in os.listdir(d) if ".tmp" not in e]
-    ents.sort(key=os.path.getmtime, reverse=True)
-    for e in ents[keep:]:
-        shutil.rmtree(e, ignore_errors=True)
+    ents = []
+    for e in os.listdir(d):
+        if ".tmp" in e:
+            continue
+        try:
+            ents.append((os.path.getmtime(os.path.join(d, e)), os.path.join(d, e)))
+        except OSError:
+            pass
+    ents.sort(reverse=True)
+    now = time.time()
+    for mt, e in ents[keep:]:
+        if now - mt > min_age:
+            shutil.rmtree(e, ignore_errors=True)
 
 
 if __name__ == "__main__":
